@@ -161,6 +161,7 @@ def session_cases(ctx, cases, meta):
     finally:
         sc.close()
     mixed_version_cases(ctx, cases, meta)
+    answer_path_cases(ctx, cases, meta)
 
 
 # ====================================================================================== several versions on ONE connection
@@ -313,3 +314,114 @@ def mixed_version_cases(ctx, cases, meta):
     finally:
         sc.close()
     ctx.cov['mixed_version_connections'] = {'connections': len(seqs), 'answers_with_problems': nbad}
+
+
+# ====================================================================================== every answer path of the session
+def answer_path_cases(ctx, cases, meta):
+    """Per version (several versions interleaved on each connection): requests that end in each answer the session can
+    give once the request is decoded - ordinary, too large (single / multi item), request-level refusals, engine
+    failure, KmipError from the engine, unencodable response, failed client authentication.  Every answer must carry the
+    version of ITS request; the whole record goes to the model (CSessionF)."""
+    import c16
+    import sessdrv
+    quick = ctx.tier == 'quick'
+    rng = ctx.subrng('answer-paths')
+    BO = enums.BatchErrorContinuationOption
+    sc = c16.Scene(ctx)
+    eng = sc.eng
+    proxy = sessdrv.EngineProxy(eng)
+    ts = eng.clock.t
+
+    def q(v):
+        return sc.payload(OP.QUERY, v)
+
+    # name, items(v), build kwargs, proxy fault, model fault, model header-level refusal
+    scen = [
+        ('ordinary', lambda v: [q(v)], {}, None, 'SfNone', None),
+        ('too-large-single', lambda v: [q(v)], {'max_size': 16}, None, 'SfTooLarge', None),
+        ('too-large-multi', lambda v: [q(v), sc.payload(OP.GET, v), sc.payload(OP.GET_ATTRIBUTES, v)], {'max_size': 64}, None, 'SfTooLarge', None),
+        ('limit-that-fits', lambda v: [q(v)], {'max_size': 65536}, None, 'SfNone', None),
+        ('stale-time-stamp', lambda v: [q(v)], {'time_stamp': ts - 1000}, None, 'SfNone', 4),
+        ('future-time-stamp', lambda v: [q(v)], {'time_stamp': ts + 1000}, None, 'SfNone', 4),
+        ('stale-and-small-limit', lambda v: [q(v)], {'time_stamp': ts - 1000, 'max_size': 16}, None, 'SfTooLarge', 4),
+        ('asynchronous', lambda v: [q(v)], {'asynchronous': True}, None, 'SfNone', 4),
+        ('undo', lambda v: [q(v), q(v)], {'batch_option': BO.UNDO}, None, 'SfNone', 4),
+        ('batch-without-ids', lambda v: [q(v), q(v)], {'ids': False}, None, 'SfNone', 4),
+        ('engine-crash', lambda v: [q(v)], {}, ('crash',), 'SfEngineCrash', None),
+        ('engine-kmip-error', lambda v: [q(v)], {}, ('kmiperr', enums.ResultReason.INVALID_FIELD, 'injected'), 'SfNone', 7),
+        ('unencodable-response', lambda v: [q(v)], {}, ('unencodable',), 'SfUnencodable', None),
+        ('gated-operation', lambda v: [sc.payload(OP.ENCRYPT, v), sc.payload(OP.DISCOVER_VERSIONS, v), q(v)], {'batch_option': BO.CONTINUE}, None, 'SfNone', None),
+    ]
+    nbad = 0
+    try:
+        conns = []
+        for off in range(len(c16.SUPPORTED)):
+            # scenario j runs under version (off + j) mod 6: over the six connections every scenario meets every version;
+            # the order on the wire is shuffled, so neighbouring requests of a connection differ in version
+            pairs = [(sc_, c16.SUPPORTED[(off + j) % len(c16.SUPPORTED)]) for j, sc_ in enumerate(scen)]
+            rng.shuffle(pairs)
+            conns.append((sessdrv.GOOD_CERT, None, [p[0] for p in pairs], [p[1] for p in pairs]))
+        # a client the session cannot authenticate (certificate without a common name): every request is decoded, none runs
+        for off in (0, 3):
+            order = scen[:3] + scen[4:5]
+            vs = [c16.SUPPORTED[(off + i) % len(c16.SUPPORTED)] for i in range(len(order))]
+            conns.append((((), 'client'), 'SfAuthFails', order, vs))
+        if not quick:
+            for v in c16.SUPPORTED:
+                conns.append((sessdrv.GOOD_CERT, None, list(scen), [v] * len(scen)))
+        for cert, force_fault, order, vs in conns:
+            stream = b''
+            del proxy.faults[:]
+            for (name, items, kw, fault, mf, hr), v in zip(order, vs):
+                stream += sessdrv.encode_request(eng.build(items(v), version=v, **kw), v)
+                if force_fault is None:
+                    proxy.faults.append(fault)
+            obs, conn = sessdrv.run_spec(proxy, sessdrv.default_spec(stream, cert=cert, ts=ts), dumps=False)
+            frames = obs['frames']
+            if len(frames) != len(order):
+                ctx.violation({'class': 'echo-wire', 'problem': 'answers != requests'},
+                              {'scenarios': [x[0] for x in order], 'versions': vs, 'answers': len(frames)},
+                              '%d requests on one connection got %d answers' % (len(order), len(frames)))
+            for k, ((name, items, kw, fault, mf, hr), v, fr) in enumerate(zip(order, vs, frames)):
+                sent = b''.join(fr['sent'])
+                mf = force_fault or mf
+                ctx.case_seen(('answer-path', name, v, mf))
+                ctx.count('answer-path.%s' % (name if force_fault is None else 'unauthenticated.' + name))
+                witness = {'connection': [(x[0], c16.vstr(y)) for x, y in zip(order, vs)], 'request_index': k, 'scenario': name,
+                           'request_version': v, 'request_kwargs': repr(kw), 'injected_engine_fault': repr(fault),
+                           'client_certificate': 'no common name' if force_fault else 'CN=alice', 'answer_hex': sent.hex()[:600]}
+                try:
+                    rm = messages.ResponseMessage()
+                    rm.read(utils.BytearrayStream(bytes(sent)), kmip_version=enums.KMIPVersion.KMIP_1_0)
+                    hv = (rm.response_header.protocol_version.major, rm.response_header.protocol_version.minor)
+                    bis = rm.batch_items
+                except Exception as e:      # noqa
+                    nbad += 1
+                    ctx.violation({'class': 'echo-wire', 'path': name, 'version': c16.vstr(v), 'problem': 'undecodable answer'}, witness,
+                                  'the answer to a KMIP %s request (%s) cannot be decoded: %s' % (c16.vstr(v), name, type(e).__name__))
+                    continue
+                whole_error = len(bis) == 1 and bis[0].operation is None
+                ops = [i[0] for i in items(v)]
+                if whole_error:
+                    err, classes, flags = bis[0].result_reason.value.value, [], [False] * len(ops)
+                else:
+                    err = None
+                    classes = [gclass(b) for b in bis]
+                    flags = [b.result_status.value == enums.ResultStatus.SUCCESS for b in bis] + [False] * (len(ops) - len(bis))
+                stop = kw.get('batch_option') != BO.CONTINUE
+                cases.append('CSessionF %s true %s %s %s %s %s %s %s' % (
+                    cver(v), mf, cp.option(hr, cp.z), cp.boolean(stop),
+                    cp.lst(list(zip(ops, flags)), lambda p: '(%s, %s)' % (cp.z(p[0].value), cp.boolean(p[1]))),
+                    cver(hv), cp.option(err, cp.z), cp.lst(classes, str)))
+                meta.append(('answer-path', name, v, mf, [(x[0], c16.vstr(y)) for x, y in zip(order, vs)]))
+                if hv != v:
+                    nbad += 1
+                    witness['answer_version'] = hv
+                    witness['answer_reason'] = enums.ResultReason(err).name if err is not None else None
+                    ctx.violation({'class': 'echo-wire', 'path': name, 'version': c16.vstr(v)}, witness,
+                                  'the session answered a KMIP %s request (%s%s) under a KMIP %s header' % (
+                                      c16.vstr(v), name, ', ' + enums.ResultReason(err).name if err is not None else '', c16.vstr(hv)))
+    finally:
+        sc.close()
+    ctx.cov['session_answer_paths'] = {'connections': len(conns), 'scenarios': [x[0] for x in scen] + ['unauthenticated client'],
+                                       'answers_with_problems': nbad}
